@@ -29,9 +29,13 @@ import registry  # noqa: E402
 
 REPO = "/repo"
 WORK = os.environ.get("VERIF_WORK", "/var/tmp/verif-kani")
+UF_C = os.path.join(VERIF, "harness", "common", "uf.c")
 PROJECTS = {
-    "incrate": dict(manifest_dir=REPO, extra=["--features", "curve25519"]),
-    "ext": dict(manifest_dir=os.path.join(VERIF, "kani-ext"), extra=[]),
+    # the real crate with the in-crate harness modules; hash = CBMC uninterpreted function (uf.c)
+    "incrate": dict(manifest_dir=REPO, extra=["--features", "curve25519"], c_libs=[UF_C], rustflags=None),
+    # same, hash = run-time table with symbolic outputs (replayable); used to extract counterexamples
+    "incrate-table": dict(manifest_dir=REPO, extra=["--features", "curve25519"], c_libs=[], rustflags="--cfg verif_uf_table"),
+    "ext": dict(manifest_dir=os.path.join(VERIF, "kani-ext"), extra=[], c_libs=[], rustflags=None),
 }
 
 
@@ -110,7 +114,7 @@ def project_metas(project, th):
             return _metas[project]
         try:
             metas, secs, out = kdrive.codegen(cfg["manifest_dir"], os.path.join(tdir, "target"), cfg["extra"],
-                                              log=os.path.join(tdir, "codegen.log"))
+                                              log=os.path.join(tdir, "codegen.log"), rustflags=cfg["rustflags"])
         except RuntimeError as e:
             _metas[project] = (None, 0.0, str(e))
             return _metas[project]
@@ -130,6 +134,41 @@ def find_meta(metas, path):
         if k.endswith("::" + path) or k == path:
             return v
     return None
+
+
+def unwindset_for(work_out, patterns):
+    uws = []
+    for lid, fn, _f, _l in kdrive.show_loops(work_out):
+        bound = None
+        for pat, b in patterns:
+            if re.search(pat, fn) or re.search(pat, lid):
+                bound = b
+        if bound is not None:
+            uws.append((lid, bound))
+    return uws
+
+
+def locate_property(work_out, check):
+    """name of the property with the same description and source line in another build of the same harness"""
+    r = subprocess.run(["cbmc", "--show-properties", "--json-ui", work_out], stdout=subprocess.PIPE,
+                       stderr=subprocess.DEVNULL, text=True, env=kdrive.ENV)
+    try:
+        js = json.loads(r.stdout)
+    except Exception:
+        return None
+    cands = []
+    for item in js:
+        if isinstance(item, dict) and "properties" in item:
+            for pr in item["properties"]:
+                d = re.sub(r"^\[KANI_CHECK_ID_[^\]]*\] ?", "", pr.get("description", ""))
+                sl = pr.get("sourceLocation", {})
+                if d == check["description"] and sl.get("line") == check["line"] and \
+                        os.path.basename(sl.get("file", "")) == os.path.basename(check["file"]):
+                    cands.append((pr["name"], sl.get("function", "")))
+    for n, fn in cands:
+        if fn == check["function"]:
+            return n
+    return cands[0][0] if cands else None
 
 
 def run_harness(name, th, tier, use_memo=True):
@@ -166,19 +205,11 @@ def run_harness(name, th, tier, use_memo=True):
         os.makedirs(wdir, exist_ok=True)
         work_out = os.path.join(wdir, "h.out")
         try:
-            kdrive.prepare(meta, work_out)
+            kdrive.prepare(meta, work_out, PROJECTS[project]["c_libs"])
         except RuntimeError as e:
             res.update(status="BROKEN-HARNESS", detail=str(e)[-2000:])
             return res
-        loops = kdrive.show_loops(work_out)
-        uws = []
-        for lid, fn, _f, _l in loops:
-            bound = None
-            for pat, b in patterns:
-                if re.search(pat, fn) or re.search(pat, lid):
-                    bound = b
-            if bound is not None:
-                uws.append((lid, bound))
+        uws = unwindset_for(work_out, patterns)
         r = kdrive.run_cbmc(work_out, unwind, uws, default_checks=default_checks, timeout_s=timeout, mem_gb=mem,
                             log=os.path.join(wdir, "cbmc.log"))
         res.update(status=r["status"], wall_s=r["wall_s"], stats=r["stats"], unwind=unwind,
@@ -296,18 +327,32 @@ def triage_failure(name, res, th, prop_id):
     bins, err = build_replay(th)
     if bins is None:
         return [{"kind": "inconclusive", "why": "replay binary does not build: " + err[-400:]}]
-    work_out = os.path.join(res["work"], "h.out")
-    if not os.path.exists(work_out):
-        # memo hit without goto binary: regenerate
-        metas, _, _ = project_metas(spec.get("project", "incrate"), th)
-        kdrive.prepare(find_meta(metas, spec["path"]), work_out)
+    project = spec.get("project", "incrate")
+    patterns = list(registry.DEFAULT_LOOPS) + list(spec.get("loops", []))
+    if project == "incrate":
+        # counterexamples are extracted from the table-hash build of the same harness (replayable values)
+        project = "incrate-table"
+    metas, _, err = project_metas(project, th)
+    if metas is None:
+        return [{"kind": "inconclusive", "why": "table-mode build failed: " + err[-400:]}]
+    meta = find_meta(metas, spec["path"])
+    if meta is None:
+        return [{"kind": "inconclusive", "why": "harness missing in table-mode build"}]
+    tdir = os.path.join(WORK, "run", "triage-" + hashlib.sha256((th + name).encode()).hexdigest()[:16])
+    os.makedirs(tdir, exist_ok=True)
+    work_out = os.path.join(tdir, "h.out")
+    kdrive.prepare(meta, work_out, PROJECTS[project]["c_libs"])
+    uws = unwindset_for(work_out, patterns)
     seen_msgs = set()
     for c in real[:6]:
         if c["description"] in seen_msgs:
             continue
         seen_msgs.add(c["description"])
-        vals, e = extract_values(work_out, c["property"], res["unwind"], [tuple(x) for x in res["unwindset"]],
-                                 res["default_checks"])
+        prop = locate_property(work_out, c)
+        if prop is None:
+            outs.append({"kind": "inconclusive", "why": "failing check not found in table-mode build", "check": c["description"]})
+            continue
+        vals, e = extract_values(work_out, prop, res["unwind"], uws, res["default_checks"])
         if vals is None:
             outs.append({"kind": "inconclusive", "why": e, "check": c["description"]})
             continue
